@@ -101,9 +101,8 @@ def _outcome(fn) -> dict:
 def replay_delims(case):
     ds = _strings(case["d"])
     src = "".join(case["source"])
-    env = _env_for(ds)
-    sync = _outcome(lambda: env.from_string(src).render())
-    asy = _outcome(lambda: asyncio.run(env.from_string(src).render_async()))
+    sync = _outcome(lambda: _env_for(ds).from_string(src).render())          # creating the environment is part of the observation
+    asy = _outcome(lambda: asyncio.run(_env_for(ds).from_string(src).render_async()))
     return {"sync": sync, "async": asy}
 
 
@@ -202,21 +201,26 @@ DELIM_RUNS = {
     # programs, delimiter sets, seeds of the sampled sets, Lexer.tla text alphabets
     "quick": [dict(Progs="short", DSets="few", Lo=1, Hi=0, T0="TextsOne", T1="TextsC", T2="TextsC", Bodies="BodiesA"),
               dict(Progs="kitchen", DSets="sweep2", Lo=1, Hi=0, **TXT),
-              dict(Progs="kitchen", DSets="sampled", Lo=1, Hi=160, **TXT),
-              dict(Progs="tags", DSets="named", Lo=1, Hi=0, **TXT)],
-    "thorough": [dict(Progs="wide", DSets="named", Lo=1, Hi=0, T0="TextsA", T1="TextsB", T2="TextsC", Bodies="BodiesB"),
+              dict(Progs="kitchen", DSets="sampled", Lo=1, Hi=400, **TXT),
+              dict(Progs="tags", DSets="named", Lo=1, Hi=0, **TXT),
+              dict(Progs="tags", DSets="sampled", Lo=401, Hi=480, **TXT)],
+    "thorough": [dict(Progs="wide_v1", DSets="named", Lo=1, Hi=0, T0="TextsA", T1="TextsB", T2="TextsC", Bodies="BodiesB"),
+                 dict(Progs="wide_v2", DSets="named", Lo=1, Hi=0, T0="TextsA", T1="TextsB", T2="TextsC", Bodies="BodiesB"),
+                 dict(Progs="wide_v3", DSets="named", Lo=1, Hi=0, T0="TextsA", T1="TextsB", T2="TextsC", Bodies="BodiesB"),
+                 dict(Progs="wide_v4", DSets="named", Lo=1, Hi=0, T0="TextsA", T1="TextsB", T2="TextsC", Bodies="BodiesB"),
                  dict(Progs="sets", DSets="sweep6", Lo=1, Hi=0, **TXT),
-                 dict(Progs="sets", DSets="sampled", Lo=1, Hi=1500, **TXT),
-                 dict(Progs="sets", DSets="sampled", Lo=1501, Hi=3000, **TXT),
+                 dict(Progs="sets", DSets="sampled", Lo=1, Hi=3000, **TXT),
                  dict(Progs="tags", DSets="named", Lo=1, Hi=0, **TXT),
-                 dict(Progs="tags", DSets="sampled", Lo=1, Hi=600, **TXT)],
+                 dict(Progs="tags", DSets="sampled", Lo=3001, Hi=3600, **TXT)],
 }
+_INITS = re.compile(r"Finished computing initial states: (\d+) distinct")
 
 
 def delims_jobs(tier: str) -> list:
     jobs = []
     for n, kw in enumerate(DELIM_RUNS[tier]):
-        jobs.append(("Delims", gen_cfg("cfg/Delims.tmpl", dict(kw, Dev="FALSE", Emit="INVARIANT Emit"), f"d{n}"), dict(workers=4, timeout=3000)))
+        jobs.append(("Delims", gen_cfg("cfg/Delims.tmpl", dict(kw, Dev="FALSE", Emit="INVARIANT Emit"), f"d{n}"),
+                     dict(workers=4 if tier == "quick" else 8, timeout=3000)))
     jobs.append(("Delims", gen_cfg("cfg/Delims.tmpl", dict(Progs="dev", DSets="dot", Lo=1, Hi=0, Dev="TRUE", Emit="", **TXT), "ddev"),
                  dict(workers=1, timeout=600, expect_violation=True)))
     return jobs
@@ -233,6 +237,9 @@ def delims_cases(ck: Check, tier: str, results: list, rnd: random.Random):
         if not r.emitted:
             raise MachineryError(f"Delims.tla emitted nothing for {what} (vacuous)")
         cases += r.emitted
+        m = _INITS.search(r.out)
+        ck.cov["pairs_enumerated"] = ck.cov.get("pairs_enumerated", 0) + (int(m.group(1)) if m else 0)
+    ck.cov["pairs_admissible"] = len(cases)
     cases.sort(key=lambda c: json.dumps(c, sort_keys=True))          # several TLC workers print in no particular order
     if results[-1].violated != "ScanRecovers":
         raise MachineryError("deviation Unescaped does not violate ScanRecovers: vacuous")
@@ -290,6 +297,13 @@ def delims_report(ck: Check, groups: list, records: list, verdicts: dict, cases:
 # part 2: histories
 
 def _make_env(cfg: dict, ds: dict):
+    try:
+        return _make_env_(cfg, ds)
+    except Exception as e:  # noqa: BLE001 - an environment that cannot be created fails every parse
+        return ("broken", type(e).__name__)
+
+
+def _make_env_(cfg: dict, ds: dict):
     from liquid import Mode
     mode = {"strict": Mode.STRICT, "warn": Mode.WARN, "lax": Mode.LAX}[cfg["mode"]]
     if cfg["impl"]:
@@ -310,6 +324,8 @@ def _parse(env, src):
     with warnings.catch_warnings():
         warnings.simplefilter("ignore")
         try:
+            if isinstance(env, tuple) and env[0] == "broken":
+                return None, {"k": "err", "v": [env[1]]}
             if isinstance(env, tuple):
                 import liquid
                 return liquid.Template(src, **env[1]), {"k": "ok", "v": []}
@@ -375,9 +391,9 @@ def _alone_of(alone, h, n, op):
 
 
 HIST_RUNS = {
-    "quick": [dict(MaxOps=4, NEnvs=2, Vars=ALLVARS, Vars3="{}", Bases="{1, 2, 3}", Wide="FALSE")],
-    "thorough": [dict(MaxOps=5, NEnvs=2, Vars=ALLVARS, Vars3="{}", Bases="{1, 2, 3}", Wide="TRUE"),
-                 dict(MaxOps=4, NEnvs=3, Vars=ALLVARS, Vars3='{"custom", "stamp", "same", "role1", "lax"}', Bases="{1, 2}", Wide="FALSE")],
+    "quick": [dict(MaxOps=4, NEnvs=2, Vars=ALLVARS, Vars3="{}", Bases="{1, 2, 3, 4}", Wide="FALSE")],
+    "thorough": [dict(MaxOps=5, NEnvs=2, Vars=ALLVARS, Vars3="{}", Bases="{1, 2, 3, 4}", Wide="TRUE"),
+                 dict(MaxOps=4, NEnvs=3, Vars=ALLVARS, Vars3='{"custom", "stamp", "same", "role1", "lax", "impl"}', Bases="{1, 2, 4}", Wide="FALSE")],
 }
 HIST_DEVS = {"quick": ["KeyOmits1", "KeyOmits5", "ParserPerClass"],
              "thorough": ["KeyOmits1", "KeyOmits2", "KeyOmits3", "KeyOmits4", "KeyOmits5", "KeyOmits6", "ParserPerClass", "ParserByHash"]}
@@ -387,7 +403,7 @@ def history_jobs(tier: str) -> list:
     jobs = []
     for n, kw in enumerate(HIST_RUNS[tier]):
         jobs.append(("EnvHistory", gen_cfg("cfg/EnvHistory.tmpl", dict(kw, Dev="none", Emit="INVARIANT Emit"), f"h{n}"),
-                     dict(workers=4, timeout=3000)))
+                     dict(workers=4 if tier == "quick" else 8, timeout=3000)))
     for dv in HIST_DEVS[tier]:
         jobs.append(("EnvHistory", gen_cfg("cfg/EnvHistory.tmpl", dict(MaxOps=3, NEnvs=2, Vars=ALLVARS, Vars3="{}", Bases="{1, 2}",
                                                                    Wide="FALSE", Dev=dv, Emit=""), "hdev" + dv),
@@ -540,8 +556,8 @@ def replay(path):
     d = json.load(open(path))["detail"]
     if "disagreeing" in d:
         for x in d["disagreeing"] + d["agreeing"]:
-            env = _env_for(x["delimiters"])
-            print(x["delimiters"], repr(x["source"]), "->", _outcome(lambda: env.from_string(x["source"]).render()), "required", d["required"])
+            print(x["delimiters"], repr(x["source"]), "->", _outcome(lambda: _env_for(x["delimiters"]).from_string(x["source"]).render()),
+                  "required", d["required"])
     else:
         print(json.dumps(d, indent=1))
     return 0
